@@ -65,4 +65,24 @@ def tobytes (bw : Nat) (xs : List Nat) : List Nat :=
   else if bw = 2 then pack2 xs
   else xs.flatMap (leBytes (bw / 8))
 
+/-! ### The specification of the packed little-endian layout, as a bit stream
+
+Independent of `pack4` / `pack2` / `leBytes`: the ONNX layout says that element `i` of a tensor of
+`w`-bit elements occupies bits `[i*w, (i+1)*w)` of the tensor's bytes read as one little-endian
+bit stream (byte 0 first, bit 0 of a byte first), the FIRST element in the LOW bits, and that the
+unused high bits of the last byte are zero. -/
+
+/-- the `k` low bits of `x`, least significant first -/
+def natBits : Nat → Nat → List Bool
+  | 0, _ => []
+  | k + 1, x => (x % 2 == 1) :: natBits k (x / 2)
+
+/-- the little-endian bit stream of a byte sequence: bit 0 of byte 0 first -/
+def bitStream (bs : List Nat) : List Bool := bs.flatMap (natBits 8)
+
+/-- the specified bit stream of `xs` as `w`-bit elements stored in `nb` bytes: the elements' bits
+    in order, low bit first, then zero padding up to `8 * nb` bits -/
+def elemStream (w : Nat) (xs : List Nat) (nb : Nat) : List Bool :=
+  xs.flatMap (natBits w) ++ List.replicate (8 * nb - xs.length * w) false
+
 end IrVerif.Pack
